@@ -91,6 +91,20 @@ pub uninterp spec fn cfg_fmt_max_integer_padding() -> usize;
 /// result (unscaled magnitude, scale) of the Newton reciprocal on a magnitude: NOT specified (accuracy undecided)
 pub uninterp spec fn inv_mag_spec(n: int, s: int, p: u64, m: RoundingMode) -> (int, int);
 
+/// results of the numeric cores of sqrt / cbrt: NOT specified (accuracy undecided)
+pub uninterp spec fn sqrt_mag_spec(n: int, s: int, p: u64, m: RoundingMode) -> (int, int);
+pub uninterp spec fn cbrt_spec(n: int, s: int, p: u64, m: RoundingMode) -> (int, int);
+/// entry-point behaviour of sqrt: zero and one are returned unchanged, negative => None, else the core on the magnitude
+pub open spec fn sqrt_post(i: int, s: int, p: u64, m: RoundingMode, ret: Option<BigDecimal>) -> bool {
+    if i == 0 || same_val(i, s, 1, 0) { ret.is_some() && ret.unwrap().i() == i && ret.unwrap().s() == s }
+    else if i < 0 { ret.is_none() }
+    else { ret.is_some() && ret.unwrap().i() == sqrt_mag_spec(i, s, p, m).0 && ret.unwrap().s() == sqrt_mag_spec(i, s, p, m).1 }
+}
+pub open spec fn cbrt_post(i: int, s: int, p: u64, m: RoundingMode, ri: int, rs: int) -> bool {
+    if i == 0 || same_val(i, s, 1, 0) { ri == i && rs == s }
+    else { ri == cbrt_spec(i, s, p, m).0 && rs == cbrt_spec(i, s, p, m).1 }
+}
+
 // derive(Clone) on the crate's structs (derives are dropped by R7; these bodies are what derive expands to)
 impl Clone for BigDecimal {
     fn clone(&self) -> (ret: BigDecimal) ensures ret.i() == self.i(), ret.s() == self.s() {
@@ -288,9 +302,30 @@ pub open spec fn prim_quot_cases(ai: int, a_s: int, d: int, maxp: int, ri: int, 
     else if d == -2 { is_sum(-ai, a_s, ri, rs, ri, rs) }
     else { quot_cases(ai, a_s, d, 0, maxp, ri, rs) }
 }
+/// Floor and Ceiling exchanged (the mode as seen from the other side of zero)
+pub open spec fn mirror_mode(m: RoundingMode) -> RoundingMode {
+    match m { RoundingMode::Floor => RoundingMode::Ceiling, RoundingMode::Ceiling => RoundingMode::Floor, o => o }
+}
+/// entry-point behaviour of inverse_with_context
+pub open spec fn inverse_ctx_post(i: int, s: int, p: u64, m: RoundingMode, ri: int, rs: int) -> bool {
+    if i == 0 || same_val(i, s, 1, 0) { ri == i && rs == s }
+    else {
+        let mm = if i < 0 { mirror_mode(m) } else { m };
+        rs == inv_mag_spec(iabs(i), s, p, mm).1 && ri == isgn(i) * inv_mag_spec(iabs(i), s, p, mm).0
+    }
+}
 /// result of x.inverse() at the configured default context (see contracts/58_inverse.ctr)
 pub open spec fn inverse_post(i: int, s: int, ri: int, rs: int) -> bool {
-    if i == 0 || same_val(i, s, 1, 0) { ri == i && rs == s }
-    else { rs == inv_mag_spec(iabs(i), s, cfg_default_precision(), cfg_default_rounding_mode()).1
-           && ri == isgn(i) * inv_mag_spec(iabs(i), s, cfg_default_precision(), cfg_default_rounding_mode()).0 }
+    inverse_ctx_post(i, s, cfg_default_precision(), cfg_default_rounding_mode(), ri, rs)
+}
+/// the mirror law of C12 follows from the entry-point contract alone: inverse(-x)|m == -inverse(x)|mirror(m)
+pub proof fn lemma_inverse_mirror(i: int, s: int, p: u64, m: RoundingMode, ai: int, a_s: int, bi: int, bs: int)
+    requires i != 0, !same_val(i, s, 1, 0), !same_val(-i, s, 1, 0),
+             inverse_ctx_post(-i, s, p, m, ai, a_s), inverse_ctx_post(i, s, p, mirror_mode(m), bi, bs)
+    ensures ai == -bi, a_s == bs
+{
+    assert(mirror_mode(mirror_mode(m)) == m);
+    assert(iabs(-i) == iabs(i));
+    let z = inv_mag_spec(iabs(i), s, p, if i < 0 { m } else { mirror_mode(m) }).0;
+    assert(isgn(-i) * z == -(isgn(i) * z)) by (nonlinear_arith) requires isgn(-i) == -isgn(i);
 }
